@@ -345,14 +345,26 @@ def all_items():
         add_enc(N, k, True, False, mask)
         add_enc(N, k, False, True, mask)
 
-    def add_dec(kind, regime, N, k, fz, pi, iters=None, stretch=False):
-        c = dict(N=N, k=k, frozen_zeros=fz, polar_i=pi, mask=None, decoder=kind, regime=regime, iters=iters)
+    def add_dec(kind, regime, N, k, fz, pi, iters=None, stretch=False, mask=None):
+        c = dict(N=N, k=k, frozen_zeros=fz, polar_i=pi, mask=mask, decoder=kind, regime=regime, iters=iters)
         items.append(dict(type="dec", c=c, config=f"{kind}[{regime}] {cfgstr(c)}", stretch=stretch))
     for N in (2, 4, 8) + ((16,) if TIER == "thorough" else ()):
         ks = list(range(1, N)) if N <= 4 else ([N // 2, N - 2, 2] if N == 8 else [8, 5])
         for k in ks:
             for fz, pi in ((True, False), (False, False), (True, True)):
                 add_dec("sc", "min_sum", N, k, fz, pi, stretch=(N == 16))
+    # user-supplied information masks (not nested like the 5G ranking): information bit before a frozen bit inside a sub-block
+    user_masks = [[True, False, False, True], [False, True, True, False], [False, False, True, False, False, True, True, True], [True, False, True, False, False, True, False, True]]
+    for _ in range(tier(2, 6)):
+        N = rng.choice([4, 8])
+        k = rng.randint(1, N - 1)
+        mk = [False] * N
+        for i in rng.sample(range(N), k):
+            mk[i] = True
+        user_masks.append(mk)
+    for mk in user_masks:
+        for fz, pi in ((True, False), (False, True)):
+            add_dec("sc", "min_sum", len(mk), sum(mk), fz, pi, mask=mk)
     for N, k in ((2, 1), (4, 2), (4, 3)):
         add_dec("sc", "sum_product", N, k, True, False)
     for N, k in ((2, 1), (4, 2), (4, 3)) + (((8, 4),) if TIER == "thorough" else ()):
